@@ -61,7 +61,9 @@ def run_seq_case(case) -> dict:
 def run_request_case(case) -> dict:
     """case: ["req", flavour, stub_len, vt variant, sig, hs, auth(1/0)] - optional 8th element: further stub lengths for more requests on
     the SAME connection.  hs: 1 = the server advertises header signing, 0 = it does not, 2 = it does not in its bind_ack but sets the
-    0x04 flag bit on the alter_context_resp (the client did not advertise on its alter_context then: still no header signing)."""
+    0x04 flag bit on the alter_context_resp (the client did not advertise on its alter_context then: still no header signing);
+    3 / 4 = like 1 / 0 but the security trailers of the server's acks say authentication level 5 / 2 instead of 6 (the request
+    must still be sealed at PKT_PRIVACY)."""
     import dpapi_ng._rpc as rpc
     import spnego.iov as siov
 
@@ -77,7 +79,7 @@ def run_request_case(case) -> dict:
     def handler(server, conn, req):
         return ("response", b"\x11" * 8)
 
-    srv = peers.RpcServer({ECHO_IF: handler}, drive.stub_acceptor_factory(cfg) if auth else None, {"header_sign": hs == 1, "alter_resp_extra_flags": 4 if hs == 2 else 0})
+    srv = peers.RpcServer({ECHO_IF: handler}, drive.stub_acceptor_factory(cfg) if auth else None, dict({"header_sign": hs in (1, 3), "alter_resp_extra_flags": 4 if hs == 2 else 0}, **({"ack_auth_level": {3: 5, 4: 2}[hs]} if hs in (3, 4) else {})))
     world.add_route(DC, 135, srv)
     ctxs = [rpc.ContextElement(3, rpc.SyntaxId(*ECHO_IF), [rpc.NDR64])]
     vt = _vt_variants()[vtv]
@@ -177,7 +179,7 @@ def run_request_case(case) -> dict:
                 return True
             bufs = wraps[k_][1]
             off = a["offset"]
-            want_type = int(siov.BufferType.sign_only) if hs == 1 else int(siov.BufferType.data_readonly)
+            want_type = int(siov.BufferType.sign_only) if hs in (1, 3) else int(siov.BufferType.data_readonly)
             if bufs[0][1] != raw[:24] or bufs[2][1] != raw[off : off + 8]:
                 res["viol"] = V("header-trailer-buffers", "PDU header / security trailer handed to the context differ from the bytes on the wire")
                 return True
@@ -185,7 +187,7 @@ def run_request_case(case) -> dict:
                 res["viol"] = V("sealed-region", "the confidential buffer is not exactly the stub-plus-padding region")
                 return True
             if bufs[0][0] != want_type or bufs[2][0] != want_type:
-                res["viol"] = V("header-sign-type", f"header/trailer buffer types {bufs[0][0]}/{bufs[2][0]} but header signing is {'on' if hs == 1 else 'off'}")
+                res["viol"] = V("header-sign-type", f"header/trailer buffer types {bufs[0][0]}/{bufs[2][0]} but header signing is {'on' if hs in (1, 3) else 'off'}")
                 return True
             if not wraps[k_][2]:
                 res["viol"] = V("not-encrypted", "wrap called with encrypt=False")
@@ -364,7 +366,7 @@ class C13(common.Check):
     level = "exploration"
     rule = ("request grid: stub length 0..320 x verification trailer {none, PCONTEXT|END, BITMASK+PCONTEXT|END} x signature size "
             "{16,28,60,76} x header signing on/off (authenticated) plus unauthenticated requests, both flavours - enumerated completely; a server that "
-            "sets flag bit 0x04 only on its alter_context_resp (no header signing then); three requests on ONE authenticated connection for every pair of "
+            "sets flag bit 0x04 only on its alter_context_resp (no header signing then); acks whose security trailer names authentication level 5 or 2; three requests on ONE authenticated connection for every pair of "
             "stub-length residues mod 16; connections with different signature sizes one after the other in one process; "
             "reply path: GetKey replies from the reference DC whose envelope length sweeps every residue (DH key_length 5..12 incl. odd, "
             "domain/forest name lengths 0..7, seed and public-key replies) x server padding policy {pad to 16, pad to 4, extra 4k, exactly K for K in 0..15} so that "
@@ -377,7 +379,7 @@ class C13(common.Check):
                   "DC": "model (RefDC)", "transport": "simulated"}
     assumptions = ["the quantifier is a parameter grid; what the simulation contributes is the second party (independent receiver, recording context)",
                    "alloc_hint is recorded, not judged"]
-    required_fired = tuple(f"reply_pad_{k}" for k in range(16)) + ("hs_1_auth_1", "hs_0_auth_1", "hs_0_auth_0", "hs_2_auth_1", "requests_on_one_connection", "seq_connections", "concurrent_replies", "alloc_hint_unpadded", "alloc_hint_zero", "sig_sizes_differ")
+    required_fired = tuple(f"reply_pad_{k}" for k in range(16)) + ("hs_1_auth_1", "hs_0_auth_1", "hs_0_auth_0", "hs_2_auth_1", "hs_3_auth_1", "hs_4_auth_1", "requests_on_one_connection", "seq_connections", "concurrent_replies", "alloc_hint_unpadded", "alloc_hint_zero", "sig_sizes_differ")
 
     def exhaustive(self, tier):
         return True
@@ -402,6 +404,7 @@ class C13(common.Check):
             for n in range(0, 48):
                 for sig in (16, 60):
                     out.append(["req", fl, n, n % 2, sig, 2, 1])
+                    out.append(["req", fl, n, n % 2, sig, 3 + n % 2, 1])
             # several requests on ONE connection: every pair of stub-length residues mod 16, then back to the first length
             for n1 in range(0, 16):
                 for n2 in range(0, 16):
